@@ -757,6 +757,13 @@ Definition run_swap (input : list Z) : list Z :=
                            else if (scenario =? 1) || (scenario =? 3) then ulist_insert t s1' swapped [PF 1] 3 1 [[]]
                            else if scenario =? 2 then list_insert t s1' swapped [PF 3] 2 [[1]]
                            else ulist_clear t s1' swapped [PF 2])
+                        else if then_ =? 4 then
+                          (* remove the first element of the swapped container *)
+                          (if scenario =? 0 then list_remove t s1' swapped [PF 0] 0 1
+                           else if (scenario =? 1) || (scenario =? 3) then ulist_remove t s1' swapped [PF 1] 0 1
+                           else if scenario =? 2 then list_remove t s1' swapped [PF 3] 0 1
+                           else ulist_remove t s1' swapped [PF 2] 0 1)
+                        else if then_ =? 5 then ulist_remove t s1' swapped [PF 1] 1 2
                         else Ok (s1', swapped, []) in
                       match r with
                       | Panic => [1]
